@@ -749,3 +749,107 @@ Theorem rdata_names_are_compressed_only_where_rfc3597_allows :
                     || existsb (String.eqb (tl_name L)) rfc1035_compressible) layouts = true.
 Proof. exact only_rfc1035_types_compress_rdata. Qed.
 Print Assumptions rdata_names_are_compressed_only_where_rfc3597_allows.
+
+(* ================================================================== *)
+(* EDNS0 options and SVCB parameters at the level of their Go struct fields
+   (Model/OptVal.v: what pack() returns; Model/OptValUnpack.v: makeDataOpt /
+   makeSVCBKeyValue followed by the type's unpack(), branch by branch), proofs in
+   Proofs/OptValRoundtripProofs.v.  The model functions are compared with the
+   real methods on every run (optunpack / svcbunpack cases of Corr/C01.v, optval /
+   svcbval cases of Corr/C08.v).
+
+   [opt_wf v]      the fields are in the range of their Go types.
+   [opt_rt_ok v]   not an EDNS0_LOCAL carrying a code makeDataOpt knows, not a
+                   SUBNET whose SourceScope exceeds the address width (both
+                   refuted below).
+   [opt_norm v]    the decoder's normal form: lower-case hex text (NSID, COOKIE),
+                   the SUBNET address masked, zero-filled and in 16 octet form for
+                   family 1, Expire 0 beside Empty.
+   REPORTING (code 18) is excluded from the two general EDNS0 statements: its
+   codec is the domain name codec of C03/C04 run with a 255 octet buffer. *)
+From Dns Require Import Model.OptValUnpack Proofs.OptValRoundtripProofs.
+
+(* value -> wire -> value up to the normal form, and the normal form packs to the same octets *)
+Theorem option_value_roundtrip :
+  forall (v : optval) (b : bytes),
+    opt_wf v = true -> opt_rt_ok v = true -> opt_code v <> 18 -> opt_pack v = Ok b ->
+    opt_unpack (opt_code v) b = Ok (opt_norm v) /\ opt_pack (opt_norm v) = Ok b.
+Proof. exact opt_pack_unpack_all. Qed.
+Print Assumptions option_value_roundtrip.
+
+Theorem option_canonical_value_is_its_normal_form :
+  forall v : optval, opt_canon v = true -> opt_norm v = v.
+Proof. exact opt_canon_norm. Qed.
+Print Assumptions option_canonical_value_is_its_normal_form.
+
+(* pack() writes a SourceScope that unpack() refuses *)
+Theorem option_subnet_scope_refuted :
+  let v := O_SUBNET 1 24 33 [192; 0; 2; 0] in
+  opt_wf v = true /\ opt_pack v = Ok [0; 1; 24; 33; 192; 0; 2] /\
+  opt_unpack (opt_code v) [0; 1; 24; 33; 192; 0; 2] = Err "netmask".
+Proof. exact subnet_scope_refuted. Qed.
+Print Assumptions option_subnet_scope_refuted.
+
+Theorem option_local_with_known_code_refuted :
+  opt_pack (O_LOCAL 1 []) = Ok [] /\ opt_unpack 1 [] = Err "buf" /\
+  opt_pack (O_LOCAL 3 [171]) = Ok [171] /\ opt_unpack 3 [171] = Ok (O_NSID [97; 98]).
+Proof. exact local_known_code_refuted. Qed.
+Print Assumptions option_local_with_known_code_refuted.
+
+Theorem option_value_not_canonical_refuted :
+  opt_norm (O_NSID [65; 66]) = O_NSID [97; 98] /\
+  opt_norm (O_SUBNET 1 8 0 [10; 1; 2; 3]) = O_SUBNET 1 8 0 (v4in6_prefix ++ [10; 0; 0; 0]) /\
+  opt_norm (O_EXPIRE 7 true) = O_EXPIRE 0 true.
+Proof. exact opt_not_canonical_refuted. Qed.
+Print Assumptions option_value_not_canonical_refuted.
+
+(* wire -> value -> wire: whatever unpack accepts packs to exactly the octets the
+   octet-level view of Model/Options.v reports (this ties the two models), and
+   what unpack refuses the view refuses *)
+Theorem option_unpack_then_pack_is_the_view :
+  forall (c : N) (b : bytes) (v : optval),
+    wfb b -> c <> 18 -> opt_unpack c b = Ok v ->
+    exists b', opt_pack v = Ok b' /\ opt_view c b = Some (b', lenN b').
+Proof. exact opt_unpack_pack_all. Qed.
+Print Assumptions option_unpack_then_pack_is_the_view.
+
+Theorem option_unpack_error_is_the_views :
+  forall (c : N) (b : bytes) (e : string), c <> 18 -> opt_unpack c b = Err e -> opt_view c b = None.
+Proof. exact opt_unpack_error_view. Qed.
+Print Assumptions option_unpack_error_is_the_views.
+
+(* SVCB.  [svcb_rt_ok v]: not an SVCBLocal carrying a key makeSVCBKeyValue knows,
+   not an empty address list.  [svcb_norm v]: mandatory keys sorted, IPv4 hints
+   in 4 octet form. *)
+Theorem svcb_value_roundtrip :
+  forall (v : svcbval) (b : bytes),
+    svcb_wf v = true -> svcb_rt_ok v = true -> svcb_pack v = Ok b ->
+    svcb_unpack (svcb_key v) b = Ok (svcb_norm v) /\ svcb_pack (svcb_norm v) = Ok b.
+Proof. exact svcb_pack_unpack_all. Qed.
+Print Assumptions svcb_value_roundtrip.
+
+Theorem svcb_canonical_value_is_its_normal_form :
+  forall v : svcbval, svcb_canon v = true -> svcb_norm v = v.
+Proof. exact svcb_canon_norm. Qed.
+Print Assumptions svcb_canonical_value_is_its_normal_form.
+
+Theorem svcb_value_roundtrip_refuted :
+  svcb_pack (S_IPV4HINT []) = Ok [] /\ svcb_unpack 4 [] = Err "v4hint" /\
+  svcb_pack (S_IPV6HINT []) = Ok [] /\ svcb_unpack 6 [] = Err "v6hintlen" /\
+  svcb_pack (S_LOCAL 3 [1]) = Ok [1] /\ svcb_unpack 3 [1] = Err "port".
+Proof. exact svcb_roundtrip_refuted. Qed.
+Print Assumptions svcb_value_roundtrip_refuted.
+
+Theorem svcb_value_not_canonical_refuted :
+  svcb_norm (S_MANDATORY [4; 1]) = S_MANDATORY [1; 4] /\
+  svcb_norm (S_IPV4HINT [v4in6_prefix ++ [192; 0; 2; 1]]) = S_IPV4HINT [[192; 0; 2; 1]].
+Proof. exact svcb_not_canonical_refuted. Qed.
+Print Assumptions svcb_value_not_canonical_refuted.
+
+(* every key, no exception: the octets and the length len() reports *)
+Theorem svcb_unpack_then_pack_is_the_view :
+  forall (k : N) (b : bytes) (v : svcbval),
+    wfb b -> svcb_unpack k b = Ok v ->
+    exists b', svcb_pack v = Ok b' /\ svcb_view k b = Some (b', svcb_len v).
+Proof. exact svcb_unpack_pack_all. Qed.
+Print Assumptions svcb_unpack_then_pack_is_the_view.
